@@ -1,4 +1,6 @@
 """C13 — name parts follow BibTeX's First/von/Last/Jr rules and keep every word once (DESIGN 4/C13)."""
+import itertools
+
 import bibtexparser
 from bibtexparser.library import Library
 from bibtexparser.middlewares.names import (
@@ -81,6 +83,7 @@ def shards(tier):
     # deeper over words and the main separators only: up to 4 (quick) / 5 (thorough) words in every case pattern
     out += [("words", s) for s in seq_shards(SIGMA_WORDS, 7 if tier == "quick" else 8, min_len=6 if tier == "quick" else 7, prefix_len=3)]
     out += [("class", s) for s in seq_shards(SIGMA_CLASS, 5 if tier == "quick" else 6)]
+    out += [("patterns", n, first) for n in range(5, (8 if tier == "quick" else 10)) for first in range(3)]
     out += [("mw", 0), ("mw", 1), ("mw", 2), ("leak", 0)]
     out += [("ball", b, k, st, n) for (_, b, k, st, n) in spaces.ball_shards(len(BASES), 2 if tier == "quick" else 3)]
     return out
@@ -364,6 +367,22 @@ def run_shard(shard, tier, acc):
     elif kind == "words":
         for toks in seq_iter(SIGMA_WORDS, shard[1]):
             check_name("".join(toks), acc, toks)
+    elif kind == "patterns":
+        # beyond the token bound: every case pattern of n = 5..7 (thorough ..9) plain words (upper / lower / caseless),
+        # with no, one or two commas after any words - the von / Last boundary rules on names of middling length
+        _, n, first = shard
+        rep = ["AA", "bb", "{cc}"]
+        for pat in itertools.product(range(3), repeat=n - 1):
+            words = [rep[first]] + [rep[i] for i in pat]
+            for commas in [()] + [(i,) for i in range(1, n)] + [(i, j) for i in range(1, n) for j in range(i + 1, n)]:
+                toks = []
+                for k, w in enumerate(words):
+                    if k:
+                        toks.append(",") if k in commas else None
+                        toks.append(" ")
+                    toks.append(w)
+                acc.count("pattern_names")
+                check_name("".join(toks), acc, toks)
     elif kind == "class":
         for toks in seq_iter(SIGMA_CLASS, shard[1]):
             acc.count("case_class_names")
